@@ -38,4 +38,36 @@ var properties = map[string]propSpec{
 		Stub:        []string{"failing OperationTransmitter", "failing rsync.Encoder feeding a list decoder", "in-memory Sinker"},
 		Probes:      []string{"enum.positions", "fault.transmit_error", "probe.sender_reported_error"},
 	},
+	"C23": {
+		Engine: "muxsim", Level: "exploration", QuickSec: 30, ThoroughSec: 900,
+		Rule: "one run = two real multiplexers over a simulated carrier in a synctest bubble; a seeded plan of client operations (open/accept/read/write/half-close/close/deadlines) on up to 8 streams per side, carrier fragmentation, short reads, delay and backpressure; every byte written is position-tagged per stream and direction; a settling phase drains every stream; non-trivial = at least 2 streams established and more than 10 carrier fragments delivered; distinct = distinct canonical journal hashes",
+		Assumptions: append([]string{"data-frame payloads become visible to the reading multiplexer only when complete (so the real code never blocks on the carrier while holding Stream.receiveBufferLock); header bytes still trickle in one at a time"}, commonAssumptions...),
+		Real:        []string{"multiplexing.Multiplexer (reader, writer, enqueue goroutines)", "multiplexing.Stream", "ring.Buffer", "message encoding"},
+		Stub:        []string{"carrier (two in-memory links with seeded fragmentation, delay, capacity, cut)", "client actors", "fake clock"},
+		Probes:      []string{"probe.stream_established", "probe.eof", "probe.stream_direction_complete", "probe.link_fragments"},
+	},
+	"C24": {
+		Engine: "muxsim", Level: "exploration", QuickSec: 30, ThoroughSec: 900,
+		Rule: "as C23 but the workload adds zero-length reads and writes, deadlines in the past and future, unaccepted opens (rejections), accepts without opens and operations after close, and never closes a multiplexer or fails the carrier; oracle: neither multiplexer closes or reports an internal error, and an independent wire-protocol monitor (own frame parser + per-stream state machine) never flags a sent frame; non-trivial and distinct as C23",
+		Assumptions: append([]string{"the wire monitor counts window increments when they are sent (over-approximation of what the peer has received): sound, slightly weaker"}, commonAssumptions...),
+		Real:        []string{"multiplexing.Multiplexer", "multiplexing.Stream", "ring.Buffer"},
+		Stub:        []string{"carrier", "client actors", "independent wire monitor", "fake clock"},
+		Probes:      []string{"probe.zero_read", "probe.zero_write", "probe.open_rejected", "probe.deadline_set", "probe.frames.increment", "probe.frames.close"},
+	},
+	"C25": {
+		Engine: "muxsim", Level: "exploration", QuickSec: 30, ThoroughSec: 900,
+		Rule: "as C23 with readers that stop consuming, zero and tiny windows, expiring deadlines, concurrent closes, accept-backlog overflow, multiplexer close and carrier cut at a seeded byte offset; at every quiescent point each in-flight operation must be justified (not past its deadline or context, stream/multiplexer not closed, and - when the carrier is idle - peer not closed, no unread acknowledged data, no available send window); pending opens never exceed the peer backlog at an idle point; non-trivial and distinct as C23",
+		Assumptions: append([]string{"liveness is asserted at quiescent points of the simulated system (all goroutines durably blocked), never against wall-clock time"}, commonAssumptions...),
+		Real:        []string{"multiplexing.Multiplexer", "multiplexing.Stream", "ring.Buffer"},
+		Stub:        []string{"carrier with cut fault and capacity", "client actors", "fake clock"},
+		Probes:      []string{"probe.open_rejected", "probe.deadline_set", "fault.link_cut", "probe.mux_closed_by_plan", "probe.carrier_backpressure"},
+	},
+	"C26": {
+		Engine: "muxsim", Level: "exploration", QuickSec: 15, ThoroughSec: 300,
+		Rule: "one run = one seeded operation sequence (Write/WriteByte/Read/ReadByte/ReadNFrom/WriteTo/Reset) on the real ring.Buffer with capacities 0..100, readers that return short counts, n+EOF together or an error, and writers that accept short counts or fail after a limit; every result, the bytes handed to or taken from the peer, and Used/Free are compared with a slice-backed bounded FIFO after every operation; non-trivial = at least 3 operations; distinct = distinct (capacity, sequence)",
+		Assumptions: append([]string{"single-threaded: the only simulated environment is the connected reader/writer; sequences are sampled, not enumerated"}, commonAssumptions...),
+		Real:        []string{"ring.Buffer"},
+		Stub:        []string{"short-reading / failing io.Reader", "short-writing / failing io.Writer", "slice-backed reference queue"},
+		Probes:      []string{"probe.ring_full", "probe.ring_empty"},
+	},
 }
